@@ -1,6 +1,6 @@
 (* List notions shared by the compactor-planning properties (C30..C34):
    subsequences, contiguous segments, pairwise relations, first_some. *)
-From Coq Require Import List Bool Arith Lia.
+From Coq Require Import List Bool Arith Lia Permutation.
 Import ListNotations.
 
 Inductive sublist {A} : list A -> list A -> Prop :=
@@ -152,3 +152,41 @@ Qed.
 
 Lemma removelast_last_eq {A} (l : list A) d : l <> [] -> l = removelast l ++ [last l d].
 Proof. intros H. apply app_removelast_last, H. Qed.
+
+(* ---- pairwise for symmetric relations: invariant under permutation ------------- *)
+
+Lemma pairwise_perm {A} (R : A -> A -> Prop) (Hsym : forall a b, R a b -> R b a) l l' :
+  Permutation l l' -> pairwise R l -> pairwise R l'.
+Proof.
+  induction 1; simpl; intros Hp; auto.
+  - destruct Hp as [Hf Hp]. split; auto. eapply Permutation_Forall; eauto.
+  - destruct Hp as [Hy [Hx Hp]]. inversion Hy; subst. repeat split; auto.
+Qed.
+
+Lemma pairwise_In_distinct {A} (R : A -> A -> Prop) (Hsym : forall a b, R a b -> R b a) l a b :
+  pairwise R l -> In a l -> In b l -> a <> b -> R a b.
+Proof.
+  induction l as [|x r IH]; simpl; intros Hp Ha Hb Hne; [contradiction|].
+  destruct Hp as [Hf Hp]. rewrite Forall_forall in Hf.
+  destruct Ha as [->|Ha], Hb as [->|Hb]; auto; try congruence.
+Qed.
+
+Lemma filter_perm {A} (f : A -> bool) l l' : Permutation l l' -> Permutation (filter f l) (filter f l').
+Proof.
+  induction 1; simpl; auto.
+  - destruct (f x); auto.
+  - destruct (f x), (f y); auto. apply perm_swap.
+  - etransitivity; eauto.
+Qed.
+
+Lemma filter_all {A} (f : A -> bool) l : Forall (fun x => f x = true) l -> filter f l = l.
+Proof. induction 1; simpl; auto. rewrite H. now f_equal. Qed.
+
+Lemma pairwise_Forall2 {A} (R S T : A -> A -> Prop) (P : A -> Prop) l :
+  (forall a b, P a -> P b -> R a b -> S a b -> T a b) ->
+  Forall P l -> pairwise R l -> pairwise S l -> pairwise T l.
+Proof.
+  intros H. induction l as [|a r IH]; simpl; auto.
+  intros HP [HR HRr] [HS HSr]. inversion HP; subst. split; auto.
+  rewrite Forall_forall in *. intros x Hx. apply H; auto.
+Qed.
